@@ -404,11 +404,78 @@ def r20d(ctx):
         ctx.report("R20d", hd, hd.node, f"{la_} vs {lb_}", "TOC entries and the heading-listing tool lay out number and text differently")
 
 
+def _heading_text_accessor(repo, f, expr: ast.expr, heading_vars: set[str]) -> set[str]:
+    """The accessor(s) of the heading that an entry expression reads its text from, reduced to the underlying property:
+    a bare `h` (in an f-string, str(h), a concatenation) is looked up in Header.__str__ (`return self.P + <constant>` gives P),
+    `h.P` gives P, `h.m()` gives `m()`.  A local holding the expression is followed to its single definition."""
+    out: set[str] = set()
+    hcls = repo.cls("Header")
+    for _ in range(3):
+        if isinstance(expr, ast.Name) and expr.id not in heading_vars:
+            ds = [a.value for a in walk_no_nested(f.node) if isinstance(a, ast.Assign) and any(isinstance(t, ast.Name) and t.id == expr.id for t in a.targets)]
+            if len(ds) == 1:
+                expr = ds[0]
+                continue
+        break
+
+    def of_str() -> str:
+        g = hcls.lookup("__str__")
+        if g is None:
+            return "__str__"
+        rets = [r.value for r in walk_no_nested(g.node) if isinstance(r, ast.Return) and r.value is not None]
+        props = {x.attr for r in rets for x in ast.walk(r) if isinstance(x, ast.Attribute) and isinstance(x.value, ast.Name) and x.value.id == "self"}
+        calls = [x for r in rets for x in ast.walk(r) if isinstance(x, ast.Call)]
+        return next(iter(props)) if len(props) == 1 and not calls else "__str__"
+
+    consumed: set[int] = set()
+    for x in ast.walk(expr):
+        if isinstance(x, ast.Call) and isinstance(x.func, ast.Attribute) and isinstance(x.func.value, ast.Name) and x.func.value.id in heading_vars:
+            out.add(f"{x.func.attr}()")
+            consumed |= {id(x.func), id(x.func.value)}
+        elif isinstance(x, ast.Attribute) and id(x) not in consumed and isinstance(x.value, ast.Name) and x.value.id in heading_vars:
+            out.add(x.attr)
+            consumed.add(id(x.value))
+        elif isinstance(x, ast.Name) and x.id in heading_vars and id(x) not in consumed:
+            out.add(of_str())
+    return out
+
+
+def r20e(ctx):
+    """The listing tool shows the text the index shows.
+
+    fill() writes "<number> <heading.inner_text>".  odfdo-headers prints "<number> <heading>", i.e. str(heading), which Header/Paragraph
+    define as inner_text plus a line end.  Both therefore show the heading's own characters, notes and all, in one line of text.  Another
+    accessor on either side (get_formatted_text() expands notes and wraps, text_recursive adds the tail, .text stops at the first child)
+    makes "the same outline" two different ones for every heading that contains markup.
+    """
+    repo = ctx.repo
+    ctx.rule("R20e", "TOC.fill and the heading-listing script read the heading text through the same accessor", floor=1)
+    fill = repo.func("TOC.fill")
+    hd = repo.func("scripts.headers:headers_document")
+
+    def loop_vars(f):
+        return {n.target.id for n in walk_no_nested(f.node) if isinstance(n, ast.For) and isinstance(n.target, ast.Name) and isinstance(n.iter, ast.Attribute) and n.iter.attr == "headers"}
+
+    fa = [n.args[0] for n in walk_no_nested(fill.node) if isinstance(n, ast.Call) and call_name(n) == "Paragraph" and n.args]
+    fb = [n.args[0] for n in walk_no_nested(hd.node) if isinstance(n, ast.Call) and call_name(n) in ("print", "write") and n.args]
+    if not fa or not fb or not loop_vars(fill) or not loop_vars(hd):
+        raise AnalysisError("R20e: entry layout of TOC.fill or headers_document not found")
+    a = set().union(*[_heading_text_accessor(repo, fill, j, loop_vars(fill)) for j in fa])
+    b = set().union(*[_heading_text_accessor(repo, hd, j, loop_vars(hd)) for j in fb])
+    ok = a == b and len(a) == 1
+    ctx.instance("R20e", f"{fill.file} / {hd.file}", f"heading text: index reads {sorted(a)}, listing tool reads {sorted(b)}", ok=ok, nontrivial=True, line=hd.node.lineno)
+    if not ok:
+        ctx.report("R20e", hd, fb[0], f"index reads {sorted(a)}, listing tool reads {sorted(b)}",
+                   f"TOC.fill builds its entries from the heading's {sorted(a)} while scripts/headers prints the heading's {sorted(b)}: for a heading that holds a note, "
+                   f"a link, a line break or a long text the two outlines differ, although the property asks for the same outline from both")
+
+
 def run(ctx):
     r20a(ctx)
     r20b(ctx)
     r20c(ctx)
     r20d(ctx)
+    r20e(ctx)
     # fill() filters by self.outline_level: that property must read this TOC's own source element, not the first one of the document (rule shared with C12)
     from ..registry import build_registry
     from .c12 import r12k
@@ -420,6 +487,9 @@ from ..selftest import Seed, unparse_seed  # noqa: E402
 _TOC = "src/odfdo/toc.py"
 _HS = "src/odfdo/scripts/headers.py"
 SEEDS = [
+    Seed("headers script prints the formatted text of the heading", "fault", "src/odfdo/scripts/headers.py", '        print(f"{number_str} {header}", end="")', '        print(f"{number_str} {header.get_formatted_text()}")', "R20e"),
+    Seed("headers script prints text_recursive", "fault", "src/odfdo/scripts/headers.py", '        print(f"{number_str} {header}", end="")', '        print(f"{number_str} {header.text_recursive}")', "R20e"),
+    Seed("headers script prints inner_text and its own line end", "neutral", "src/odfdo/scripts/headers.py", '        print(f"{number_str} {header}", end="")', '        print(f"{number_str} {header.inner_text}")'),
     Seed("TOC entry built from text_recursive (includes the tail)", "fault", "src/odfdo/toc.py",
          'paragraph = Paragraph(f"{number_str} {header.inner_text}")', 'paragraph = Paragraph(f"{number_str} {header.text_recursive}")', "R20c"),
     Seed("TOC numbers a heading before the level filter", "fault", "src/odfdo/toc.py", '            if level is None or level > outline_level:\n                continue\n            number_str = self._header_numbering(level_indexes, level)\n',
